@@ -252,23 +252,26 @@ theorem desc_sop1 (c : Bool) (f : Format) (row : Row) (w0 : Nat) (w1? : Option N
 theorem norm_sopk (c : Bool) (f : Format) (row : Row) (w0 : Nat) (w1? : Option Nat)
     (hf : f.ft = FT_SOPK) (hsz : f.size = 4) (hw0 : w0 < 2 ^ 32) (hw1 : ∀ w1, w1? = some w1 → w1 < 2 ^ 32) :
     decodeRow c f row (normRow c f.ft row w0 w1?).1 (normRow c f.ft row w0 w1?).2 = decodeRow c f row w0 w1? := by
-  have hn : normRow c f.ft row w0 w1? = (w0, none) := by
+  have hn : normRow c f.ft row w0 w1? = (w0, if (row.opcode == 20) = true then w1? else none) := by
     simp [normRow, usesSecond4, hf, FT_SMEM, FT_VOP3a, FT_VOP3b, FT_DS, FT_FLAT, FT_VOP2, FT_SOP2, FT_SOPC, FT_SOP1,
       FT_SOPK, FT_VOP1, FT_VOPC]
   rw [hn]
-  unfold decodeRow
-  simp only [hsz, hf, FT_SOP2, FT_SOPK, FT_SOP1, FT_SOPC, FT_SOPP, FT_VOP2, FT_VOP1, FT_VOPC, Nat.reduceBEq,
-    Bool.false_eq_true, if_false, BEq.rfl, if_true, dec4, decodeSOPK]
-  cases hgd : getOperand (extractBits w0 16 22) with
-  | none => simp only []
-  | some d => simp only []
+  by_cases hu : (row.opcode == 20) = true
+  · simp only [hu, if_true]
+  · simp only [hu, if_false]
+    unfold decodeRow
+    simp only [hsz, hf, FT_SOP2, FT_SOPK, FT_SOP1, FT_SOPC, FT_SOPP, FT_VOP2, FT_VOP1, FT_VOPC, Nat.reduceBEq,
+      Bool.false_eq_true, if_false, BEq.rfl, if_true, dec4, decodeSOPK]
+    cases hgd : getOperand (extractBits w0 16 22) with
+    | none => simp only []
+    | some d => simp only [hu, if_false, Bool.false_eq_true]
 
 theorem desc_sopk (c : Bool) (f : Format) (row : Row) (w0 : Nat) (w1? : Option Nat) (i : Inst)
     (hf : f.ft = FT_SOPK) (hsz : f.size = 4) (hw0 : w0 < 2 ^ 32) (hw1 : ∀ w1, w1? = some w1 → w1 < 2 ^ 32)
     (henc : w0 / 2 ^ 28 = 11) (hop : extractBits w0 23 27 = row.opcode)
     (h : decodeRow c f row w0 w1? = .ok i) :
     encWord (descOf c i) = (normRow c f.ft row w0 w1?).1 ∧ encSecond (descOf c i) = (normRow c f.ft row w0 w1?).2 := by
-  have hn : normRow c f.ft row w0 w1? = (w0, none) := by
+  have hn : normRow c f.ft row w0 w1? = (w0, if (row.opcode == 20) = true then w1? else none) := by
     simp [normRow, usesSecond4, hf, FT_SMEM, FT_VOP3a, FT_VOP3b, FT_DS, FT_FLAT, FT_VOP2, FT_SOP2, FT_SOPC, FT_SOP1,
       FT_SOPK, FT_VOP1, FT_VOPC]
   rw [hn]
@@ -279,15 +282,29 @@ theorem desc_sopk (c : Bool) (f : Format) (row : Row) (w0 : Nat) (w1? : Option N
   | none => simp [hgd] at h
   | some d =>
     have cd := getOperand_code (by have := extractBits_lt w0 16 22; omega) hgd
-    simp only [hgd, Outcome.ok.injEq] at h
-    subst h
-    constructor
-    · simp only [descOf, encWord, FT_SOP2, FT_SOPK, FT_SOP1, FT_SOPC, Nat.reduceBEq, Bool.false_eq_true, if_false,
-        BEq.rfl, if_true, ocode, oint, Int.toNat_natCast, cd]
-      rw [← hop]; unfold extractBits at *; omega
-    · simp only [descOf, encSecond, FT_SOP2, FT_SOPK, FT_SOP1, FT_SOPC, FT_SOPP, FT_SMEM, FT_VOP2, FT_VOP1, FT_VOPC,
-        FT_VOP3a, FT_VOP3b, FT_FLAT, FT_DS, Nat.reduceBEq, Bool.false_eq_true, if_false, BEq.rfl, if_true,
-        Bool.or_false, Bool.and_false, Bool.false_and]
+    by_cases hu : (row.opcode == 20) = true
+    · simp only [hgd, hu, if_true] at h
+      cases hw : w1? with
+      | none => simp [hw] at h
+      | some w1 =>
+        simp only [hw, Outcome.setSize, Outcome.ok.injEq] at h
+        subst h
+        constructor
+        · simp only [descOf, encWord, FT_SOP2, FT_SOPK, FT_SOP1, FT_SOPC, Nat.reduceBEq, Bool.false_eq_true, if_false,
+            BEq.rfl, if_true, ocode, oint, Int.toNat_natCast, cd]
+          rw [← hop]; unfold extractBits at *; omega
+        · simp only [descOf, encSecond, FT_SOP2, FT_SOPK, FT_SOP1, FT_SOPC, FT_SOPP, FT_SMEM, FT_VOP2, FT_VOP1, FT_VOPC,
+            FT_VOP3a, FT_VOP3b, FT_FLAT, FT_DS, Nat.reduceBEq, Bool.false_eq_true, if_false, BEq.rfl, if_true,
+            Bool.or_false, Bool.and_false, Bool.false_and, olit, hu]
+    · simp only [hgd, hu, if_false, Bool.false_eq_true, Outcome.ok.injEq] at h
+      subst h
+      constructor
+      · simp only [descOf, encWord, FT_SOP2, FT_SOPK, FT_SOP1, FT_SOPC, Nat.reduceBEq, Bool.false_eq_true, if_false,
+          BEq.rfl, if_true, ocode, oint, Int.toNat_natCast, cd]
+        rw [← hop]; unfold extractBits at *; omega
+      · simp only [descOf, encSecond, FT_SOP2, FT_SOPK, FT_SOP1, FT_SOPC, FT_SOPP, FT_SMEM, FT_VOP2, FT_VOP1, FT_VOPC,
+          FT_VOP3a, FT_VOP3b, FT_FLAT, FT_DS, Nat.reduceBEq, Bool.false_eq_true, if_false, BEq.rfl, if_true,
+          Bool.or_false, Bool.and_false, Bool.false_and, olit, hu]
 
 theorem norm_sopp (c : Bool) (f : Format) (row : Row) (w0 : Nat) (w1? : Option Nat)
     (hf : f.ft = FT_SOPP) (hsz : f.size = 4) (hw0 : w0 < 2 ^ 32) (hw1 : ∀ w1, w1? = some w1 → w1 < 2 ^ 32) :
